@@ -302,7 +302,7 @@ func c18Run(c *Ctx, cs c18Case) {
 			depthOf[s.key()] = 0
 		}
 	}
-	base, err := os.MkdirTemp("", "c18-")
+	base, err := os.MkdirTemp(os.Getenv("VERIF_WORK"), "c18-")
 	if err != nil {
 		panic("harness: " + err.Error())
 	}
